@@ -47,6 +47,9 @@ C02Clauses(r) ==
        \cup If2(~r.rp_ok, "reparse-accepts")
        \cup If2(r.rp_ok /\ (~r.rp_eq \/ r.rp_fields # r.fields), "reparse-equal")
        \cup If2(r.rp_ok /\ d.ok /\ r.rp_consumed # r.cont_len - 1 - d.len, "consumed")
+       \* other builder call sequences: a setter called twice (last call wins), will properties without a will
+       \cup If2(r.ow = "differs", "setter-overwrite")
+       \cup If2(r.orphan = "unequal", "orphan-will-properties")
 C02Drift(r) == If2(~r.built, "builder-rejected-valid-packet")
 
 (* ---- C03: agreement with the reference                                   *)
